@@ -251,7 +251,12 @@ class SpyFS(pathio.AbstractPathIO):
                 h.state = "closed"
             return r
 
-        return await self._call("close", h.path if h else None, do, info={"h": h.hid if h else 0})
+        try:
+            return await self._call("close", h.path if h else None, do, info={"h": h.hid if h else 0})
+        except BaseException:
+            if h is not None and h.state == "open":
+                h.state = "closefailed"  # a failing close gives the handle up all the same
+            raise
 
     @universal_exception
     async def rename(self, source, destination):
